@@ -274,7 +274,7 @@ func (s *TXPoolServer) assignTxToWorker(tx *tx.Transaction,
 	lb := make(tc.LBSlice, len(s.workers))
 	for i := 0; i < len(s.workers); i++ {
 		entry := tc.LB{Size: len(s.workers[i].rcvTXCh) +
-			len(s.workers[i].pendingTxList),
+			s.workers[i].pendingLen(),
 			WorkerID: uint8(i),
 		}
 		lb[i] = entry
@@ -553,7 +553,7 @@ func (s *TXPoolServer) reVerifyStateful(tx *tx.Transaction, sender tc.SenderType
 	lb := make(tc.LBSlice, len(s.workers))
 	for i := 0; i < len(s.workers); i++ {
 		entry := tc.LB{Size: len(s.workers[i].stfTxCh) +
-			len(s.workers[i].pendingTxList),
+			s.workers[i].pendingLen(),
 			WorkerID: uint8(i),
 		}
 		lb[i] = entry
